@@ -3,6 +3,7 @@ package props
 import (
 	"encoding/json"
 	"fmt"
+	"strings"
 
 	"github.com/cocosip/go-dicom-codecs/jpeg/baseline"
 	"github.com/cocosip/go-dicom-codecs/jpeg/extended"
@@ -129,6 +130,28 @@ func (c16) Build(tier string, seed uint64) []any {
 			add(c)
 		}
 	}
+	// every frame of a multi-frame codec-level Encode (one encoder object may serve all frames)
+	for i, ts := range c10Syntaxes {
+		n := 1
+		if th {
+			n = 6
+		}
+		for j := 0; j < n; j++ {
+			r := gen.Sub(seed, "C16", "frames"+ts, j)
+			ba, bs, spp, _ := c10FrameInfo(r, ts)
+			if ba == 16 && bs <= 8 {
+				bs = 12
+			}
+			if ts == ".50" {
+				bs = 8
+			}
+			if ts == ".51" && ba == 8 {
+				bs = 8
+			}
+			_ = i
+			add(&c16Case{Gen: "frames", Enc: "codec" + ts, W: 8 + r.Intn(60), H: 8 + r.Intn(60), C: spp, P: bs, BA: ba, Sel: 3 + r.Intn(3), Class: "noise", CSeed: r.U64()})
+		}
+	}
 	// 16-bit-field extremes
 	for i, enc := range []string{"baseline", "extended", "lossless", "sv1", "jls", "jlsnear", "j2k", "rle"} {
 		for _, g := range [][2]int{{65535, 1}, {1, 65535}} {
@@ -168,6 +191,9 @@ func (c16) Exec(d any) mon.Result {
 	}
 	if c.J != nil {
 		return c16J2K(c, res)
+	}
+	if c.Gen == "frames" {
+		return c16Frames(c, res)
 	}
 	if c.Enc == "rle" {
 		info := FrameInfo(c.W, c.H, c.BA, c.BA, c.C, 0, c.Planar)
@@ -422,4 +448,69 @@ func minInt(a, b int) int {
 		return a
 	}
 	return b
+}
+
+// c16Frames walks every output frame of one multi-frame codec-level Encode.
+func c16Frames(c *c16Case, res mon.Result) mon.Result {
+	ts := strings.TrimPrefix(c.Enc, "codec")
+	fail := func(class, msg string) mon.Result {
+		res.V, res.Class, res.Msg = mon.Violated, class, msg
+		return res
+	}
+	info := FrameInfo(c.W, c.H, c.BA, c.P, c.C, 0, 0)
+	var frames [][]byte
+	for f := 0; f < c.Sel; f++ {
+		cl := "noise"
+		if f%2 == 1 {
+			cl = "smooth"
+		}
+		frames = append(frames, gen.PackN(gen.Content(gen.New(gen.Mix(c.CSeed, uint64(f))), cl, c.W, c.H, c.C, c.P, 1), c.BA/8))
+	}
+	enc := NewPD(info)
+	if err := Codec(ts).Encode(NewPD(info, frames...), enc, nil); err != nil {
+		return fail("encode-error", err.Error())
+	}
+	if len(enc.Frames) != len(frames) {
+		return fail("frame-count", fmt.Sprintf("%d frames for %d inputs", len(enc.Frames), len(frames)))
+	}
+	for f, st := range enc.Frames {
+		switch {
+		case ts == "rle":
+			if _, _, err := ref.RLEDecodeFrame(st, c.BA/8*c.C, c.W*c.H); err != nil {
+				return fail("annexg-invalid", fmt.Sprintf("frame %d: %v", f, err))
+			}
+		case ts == ".50" || ts == ".51" || ts == ".57" || ts == ".70" || ts == ".80" || ts == ".81":
+			inf, err := ref.WalkJPEG(st)
+			if err != nil {
+				return fail("stream-malformed", fmt.Sprintf("frame %d: %v", f, err))
+			}
+			if inf.W != c.W || inf.H != c.H || len(inf.Comps) != c.C {
+				return fail("header-geometry", fmt.Sprintf("frame %d declares %dx%dx%d", f, inf.W, inf.H, len(inf.Comps)))
+			}
+		default:
+			inf, err := ref.WalkJ2K(st)
+			if err != nil {
+				return fail("stream-malformed", fmt.Sprintf("frame %d: %v", f, err))
+			}
+			if inf.BadBodyPairs > 0 {
+				return fail("marker-code-in-packet-data", fmt.Sprintf("frame %d: FF followed by > 8F inside a tile-part body at offset %d", f, inf.FirstBadPair))
+			}
+			if inf.SIZ.Xsiz-inf.SIZ.XOsiz != c.W || inf.SIZ.Ysiz-inf.SIZ.YOsiz != c.H || inf.SIZ.Csiz != c.C {
+				return fail("header-geometry", fmt.Sprintf("frame %d declares %dx%dx%d", f, inf.SIZ.Xsiz, inf.SIZ.Ysiz, inf.SIZ.Csiz))
+			}
+			if inf.HasTLM {
+				if len(inf.TLM) != len(inf.TileParts) {
+					return fail("tlm-mismatch", fmt.Sprintf("frame %d: TLM lists %d tile-parts, %d present", f, len(inf.TLM), len(inf.TileParts)))
+				}
+				for k, e := range inf.TLM {
+					tp := inf.TileParts[k]
+					if (e.Ttlm >= 0 && e.Ttlm != tp.Isot) || e.Ptlm != tp.BodyEnd-tp.Offset {
+						return fail("tlm-mismatch", fmt.Sprintf("frame %d: TLM entry %d = (tile %d, %d bytes), tile-part is (tile %d, %d bytes)", f, k, e.Ttlm, e.Ptlm, tp.Isot, tp.BodyEnd-tp.Offset))
+					}
+				}
+			}
+		}
+	}
+	res.AddFeat("codec_frames_walked", int64(len(frames)))
+	return res
 }
